@@ -807,6 +807,10 @@ func (ss *SpecSet) parseSpecText(file, pkgPath, text string) {
 				errf(ln, "duplicate contract for %s", full)
 			}
 			ss.Contracts[full] = c
+			if strings.Contains(full, "[") && strings.Contains(full, ",") {
+				// instantiated generics: go/ssa separates the type arguments by spaces
+				ss.Contracts[strings.ReplaceAll(full, ",", " ")] = c
+			}
 			cur = c
 			props = nil
 		case "pure":
